@@ -253,11 +253,13 @@ fn $name(depth: usize) -> i32 {
     fn poll_stream(s: &mut Stream<u32>) -> std::task::Poll<Option<$krate::Reply<u32>>> {
         poll_stream_w(s, &std::sync::Arc::new(Wakes(std::sync::atomic::AtomicUsize::new(0))))
     }
-    // ops: 0 = set, 1 = subscribe, 2..4 = poll subscriber (op - 2), 5 = the state is replaced by a clone of itself (the original dropped)
+    // ops: 0 = set, 1 = subscribe, 2..4 = poll subscriber (op - 2), 5 = the state is replaced by a clone of itself (the original dropped), 6 = the state is dropped for good (values set before must still arrive)
     let mut seq = vec![0usize; 0];
     let mut total = 0u64;
     fn run(ops: &[usize]) -> Result<(), String> {
-        let mut state: State<u32, u32> = State::new(0);
+        // (None once the state - every clone of it - has been dropped: op 6)
+        let mut state: Option<State<u32, u32>> = Some(State::new(0));
+        let dropped = std::cell::Cell::new(false);
         let mut next = 1u32;
         // stream, values seen, value counter at subscription, its waker, Some(wake count) while parked (last poll said Pending)
         let mut subs: Vec<(Stream<u32>, Vec<u32>, u32, std::sync::Arc<Wakes>, Option<usize>)> = Vec::new();
@@ -274,21 +276,26 @@ fn $name(depth: usize) -> i32 {
                     seen.push(v);
                     Ok(true)
                 }
+                // the end of the subscription is legitimate only once the state is gone - and (checked at the drain) only after
+                // the values set before that were delivered
+                std::task::Poll::Ready(None) if dropped.get() => Ok(false),
                 std::task::Poll::Ready(None) => Err(format!("subscriber {i}: the subscription ended while the state still exists")),
                 std::task::Poll::Pending => Ok(false),
             }
         };
         for &op in ops {
             match op {
-                0 => { if poll_once(state.set(next)).is_none() { return Err("State::set did not complete at once".into()); } if state.get() != next { return Err("get() is not the value just set".into()); } next += 1;
+                6 => { state = None; dropped.set(true); }
+                0 | 1 | 5 if state.is_none() => {}
+                0 => { let state = state.as_mut().unwrap(); if poll_once(state.set(next)).is_none() { return Err("State::set did not complete at once".into()); } if state.get() != next { return Err("get() is not the value just set".into()); } next += 1;
                        for (i, (_, _, _, w, parked)) in subs.iter_mut().enumerate() {
                            if let Some(at) = *parked {
                                if w.0.load(std::sync::atomic::Ordering::SeqCst) == at { return Err(format!("subscriber {i} was told Pending and was NOT woken by the set that followed (lost wake-up: a task awaiting it never sees the new value)")); }
                                *parked = None;
                            }
                        } }
-                5 => { let c = state.clone(); state = c; }   // the state lives on in a clone; the instance it was cloned from is dropped
-                1 => { if subs.len() < 3 { let s = state.stream(); subs.push((s, Vec::new(), next - 1, std::sync::Arc::new(Wakes(std::sync::atomic::AtomicUsize::new(0))), None)); } }
+                5 => { let c = state.as_ref().unwrap().clone(); state = Some(c); }   // the state lives on in a clone; the instance it was cloned from is dropped
+                1 => { if subs.len() < 3 { let s = state.as_ref().unwrap().stream(); subs.push((s, Vec::new(), next - 1, std::sync::Arc::new(Wakes(std::sync::atomic::AtomicUsize::new(0))), None)); } }
                 k => { let i = k - 2; if i < subs.len() && i < 3 { step(&mut subs, i)?; } }
             }
         }
@@ -307,7 +314,7 @@ fn $name(depth: usize) -> i32 {
     'outer: loop {
         total += 1;
         if let Err(e) = run(&seq) {
-            println!("schedule {:?} (0 = set, 1 = subscribe, 2..4 = poll subscriber k-2, 5 = state replaced by its clone): {e}", seq);
+            println!("schedule {:?} (0 = set, 1 = subscribe, 2..4 = poll subscriber k-2, 5 = state replaced by its clone, 6 = state dropped): {e}", seq);
             println!("REPLAY: FAILS on the real code");
             rc = 1;
             break;
@@ -317,7 +324,7 @@ fn $name(depth: usize) -> i32 {
         loop {
             if i == 0 { if seq.len() == depth { break 'outer; } seq = vec![0; seq.len() + 1]; break; }
             i -= 1;
-            if seq[i] < 5 { seq[i] += 1; for j in i + 1..seq.len() { seq[j] = 0; } break; }
+            if seq[i] < 6 { seq[i] += 1; for j in i + 1..seq.len() { seq[j] = 0; } break; }
         }
     }
     // one-shot: notify before / after the first poll; notifier dropped
